@@ -31,6 +31,8 @@ var c13Prefixes = []string{
 	"10.0.0.0/8", "10.1.0.0/16", "10.1.2.0/24", "10.1.2.3/32", "10.1.2.3/8", "0.0.0.0/0", "192.168.0.0/16", "10.128.0.0/9", "10.1.2.128/25",
 	"::/0", "2001:db8::/32", "2001:db8:1::/48", "2001:db8:1:2::/64", "fe80::/10", "::1/128", "2001:db8:1::5/48",
 	"::ffff:10.1.0.0/112", "::ffff:0:0/96",
+	// same network address, different lengths
+	"10.0.0.0/24", "10.0.0.0/16", "10.1.0.0/24", "10.1.2.0/25", "2001:db8::/48", "2001:db8::/64", "0.0.0.0/8", "::/8",
 }
 
 var c13Passwords = []string{"pw-alpha", "pw-bravo", "pw-charlie", "pw-delta"}
